@@ -9,7 +9,7 @@ ASSUMPTIONS = ["scripted terminal: releases acknowledgement + first reply after 
 
 
 def run(ctx, out):
-    spec = S.load_spec()        # reply alphabets, kinds and final sets from the frozen specification table
+    spec = S.load_spec(plus=ctx.schema)        # reply alphabets, kinds and final sets from the frozen specification table
     rng = ctx.rng
     thorough = ctx.search_tier == "thorough"
     depth = 5 if thorough else 3
